@@ -173,6 +173,7 @@ fn explore(prop: &str, seed: u64, runs: u64, workers: usize, known: &Known, keep
     let totals = Mutex::new(Totals { evaluations: 0, hashes: BTreeSet::new(), nontrivial_hashes: BTreeSet::new(), faulted_runs: 0, stats: engine::RunStats::default(), samples: vec![] });
     let found: Mutex<Option<Found>> = Mutex::new(None);
     let harness: Mutex<Option<String>> = Mutex::new(None);
+    let noboot: Mutex<(u64, Option<String>)> = Mutex::new((0, None));
     let chunk = 512u64;
     let mut start = 0u64;
     while start < runs {
@@ -191,6 +192,13 @@ fn explore(prop: &str, seed: u64, runs: u64, workers: usize, known: &Known, keep
                         let mut hm = harness.lock().unwrap();
                         if hm.is_none() {
                             *hm = Some(format!("run {} step {} [{}] {}", idx, hv.step, hv.clause, hv.msg));
+                        }
+                    }
+                    if let Some(nb) = first_matching(&ev, "NOBOOT", None) {
+                        let mut g = noboot.lock().unwrap();
+                        g.0 += 1;
+                        if g.1.is_none() {
+                            g.1 = Some(format!("run {} {}", idx, nb.msg));
                         }
                     }
                     if let Some(pr) = per_run {
@@ -231,6 +239,14 @@ fn explore(prop: &str, seed: u64, runs: u64, workers: usize, known: &Known, keep
     if let Some(h) = harness.into_inner().unwrap() {
         eprintln!("HARNESS ERROR: {}", h);
         std::process::exit(2);
+    }
+    let (nb, first) = noboot.into_inner().unwrap();
+    if nb > 0 {
+        eprintln!("note: {} of {} runs were set aside because the contract refused a configuration the model considers valid ({})", nb, t.evaluations, first.unwrap_or_default());
+        if nb * 2 > t.evaluations && found.lock().unwrap().is_none() {
+            eprintln!("HARNESS ERROR: most runs could not instantiate the contract");
+            std::process::exit(2);
+        }
     }
     (t, found.into_inner().unwrap())
 }
